@@ -188,6 +188,13 @@ func Adopt(st *State) *FS {
 	return &FS{st: st, nextIno: max + 1, locks: map[string]bool{}}
 }
 
+// KillLocks forgets every held lock, as the death of the owning process does. Lock files stay.
+func (fs *FS) KillLocks() {
+	fs.mu.Lock()
+	defer fs.mu.Unlock()
+	fs.locks = map[string]bool{}
+}
+
 // Snapshot returns a copy of the current state.
 func (fs *FS) Snapshot() *State {
 	fs.mu.Lock()
